@@ -1,6 +1,7 @@
 package sim
 
 import (
+	"strings"
 	"encoding/json"
 	"fmt"
 	"time"
@@ -33,6 +34,20 @@ func (w *World) Produce(c *Chain, specs []TxSpec, opts *BlockOpts) []TxOutcome {
 	outs := c.ProduceBlock(specs, opts)
 	if c.Halted || c.LastRes == nil {
 		return outs
+	}
+	if !c.IsProvider {
+		for _, o := range outs {
+			tag := o.Spec.Tag
+			if i := strings.IndexByte(tag, ':'); i >= 0 {
+				tag = tag[:i]
+			}
+			if o.OK() {
+				w.Event("_ctx", tag+":ok")
+			} else if o.Result != nil {
+				w.Event("_ctx", fmt.Sprintf("%s:fail:%s/%d", tag, o.Result.Codespace, o.Result.Code))
+				w.Infof("consumer %s tx failed %s: %s", c.ID, o.Spec.Tag, o.Result.Log)
+			}
+		}
 	}
 	if w.Relay != nil {
 		if c.IsProvider {
